@@ -399,6 +399,26 @@ static long __attribute__((noinline)) regscale_run(long n) {
   return bad;
 }
 
+/* explicit deletes of objects whose finaliser allocates: n root Nodes deleted one by one with del_root, each finaliser making k
+   managed objects while the registry is in the middle of removing its entry (shrink boundaries are crossed on the way down);
+   returns the number of wrong registry answers */
+static long __attribute__((noinline)) delalloc_run(long n, int k) {
+  long bad = 0; var gc = current(GC);
+  var* ps = malloc((size_t)n * sizeof(var));
+  for (long i = 0; i < n; i++) ps[i] = new_root(Node, $I(1000 + i));
+  fin_allocs = k;
+  for (long i = 0; i < n; i++) {
+    var p = ps[i];
+    del_root(p);
+    if (mem(gc, p)) bad++;
+    if (i + 1 < n && !mem(gc, ps[i + 1])) bad++;
+    if (i + 1 < n && !mem(gc, ps[n - 1])) bad++;
+  }
+  fin_allocs = 0;
+  free(ps);
+  return bad;
+}
+
 static void __attribute__((noinline)) plain_nodes_build(long base, long n) { for (long i = 0; i < n; i++) { var nd = new(Node, $I(base + i)); (void)nd; } }
 
 /* a heap Tuple one of whose items is NULL (set, push and the constructor accept it): the collector meets it while marking */
@@ -673,6 +693,13 @@ static int __attribute__((noinline)) real_main(int argc, char** argv) {
       alarm(240);
       HC_TRY(bad = regscale_run(n));
       ev_begin("bulk"); ev_int("n", 1); ev_int("rooted", 1); ev_int("lost", bad); ev_int("twice", 0); ev_int("stale", 0); ev_int("gone", 0);
+      ev_str("exc", hc_exc); ev_int("line", cur_line); ev_end();
+    } else if (hc_is(0, "delalloc")) {         /* delalloc <n> <k> : del_root of n root Nodes whose finalisers allocate k objects each */
+      long n = (long)hc_int(1); if (n > 20000) n = 20000; volatile long bad = 0; bulkn = n;
+      alarm(60);
+      HC_TRY(bad = delalloc_run(n, (int)hc_int(2)));
+      long twice = 0, gone = 0; for (long i = 0; i < n; i++) { if (fin_count[1000 + i] > 1) twice++; if (fin_count[1000 + i] == 1) gone++; }
+      ev_begin("bulk"); ev_int("n", n); ev_int("rooted", 0); ev_int("lost", bad + (gone != n)); ev_int("twice", twice); ev_int("stale", 0); ev_int("gone", gone);
       ev_str("exc", hc_exc); ev_int("line", cur_line); ev_end();
     } else if (hc_is(0, "finalloc")) {         /* finalloc <n> <k> : n garbage Nodes whose finalisers allocate k objects each, in the middle of a sweep */
       long n = (long)hc_int(1); if (n > 20000) n = 20000;
